@@ -275,6 +275,11 @@ mod imp {
         Int(u64), Bool(bool), Str(&'static str), Var(String), Bin(Box<E>, &'static str, Box<E>), Neg(Box<E>), Not(Box<E>),
         Call(String, Vec<E>), Index(Box<E>, Box<E>), VecLit(&'static str, Vec<E>), Method(Box<E>, &'static str, Vec<E>),
         Lambda(Vec<String>, Vec<S>),
+        /// `fn(p) e` (expression body, no braces)
+        LambdaExpr(Vec<String>, Box<E>),
+        /// if-EXPRESSION: each branch is a value block `{ e }`; bool = `else` on its own line
+        IfExpr(Box<E>, Box<E>, Box<E>, bool),
+        BitNot(Box<E>),
     }
     #[derive(Clone, Debug)]
     pub enum S {
@@ -283,12 +288,12 @@ mod imp {
         Return(Option<E>), Break, Continue, Expr(E),
     }
 
-    pub struct Gen<'a> { r: &'a mut Rng, fresh: usize, ints: Vec<String>, muts: Vec<String>, vecs: Vec<String>, fns: Vec<(String, usize)>, lams: Vec<String>, depth: usize, in_loop: bool, in_fn: bool, in_lambda: bool, in_while: bool }
+    pub struct Gen<'a> { r: &'a mut Rng, fresh: usize, ints: Vec<String>, muts: Vec<String>, vecs: Vec<String>, fns: Vec<(String, usize)>, lams: Vec<String>, depth: usize, in_loop: bool, in_fn: bool, in_lambda: bool, in_while: bool, pushable: Vec<String> }
 
     impl<'a> Gen<'a> {
         fn name(&mut self, p: &str) -> String { self.fresh += 1; format!("{}{}", p, self.fresh) }
         fn int_expr(&mut self, d: usize) -> E {
-            let c = if d == 0 { self.r.below(3) } else if self.in_lambda { self.r.below(7) } else { self.r.below(11) };
+            let c = if d == 0 { self.r.below(3) } else if self.in_lambda { self.r.below(7) } else { self.r.below(14) };
             match c {
                 0 => E::Int(match self.r.below(5) { 0 => self.r.below(10), 1 => self.r.below(1000), 2 => self.r.below(1 << 20), 3 => 0, _ => self.r.below(100000) }),
                 1 | 2 => if self.ints.is_empty() { E::Int(self.r.below(50)) } else { E::Var(self.r.pick(&self.ints).clone()) },
@@ -311,8 +316,24 @@ mod imp {
                     let l = self.r.pick(&self.lams).clone();
                     E::Call(l, vec![self.int_expr(d - 1)])
                 },
-                _ => E::Call("apply1".into(), vec![self.lambda(true), self.int_expr(d - 1)]),
+                10 => E::Call("apply1".into(), vec![self.lambda(true), self.int_expr(d - 1)]),
+                // inside functions the parameters have no static type and `~` / if-expressions over them hit
+                // sema typing limits that are not layout matters: these two forms stay at script level
+                11 | 12 => if self.in_fn { self.int_expr(d - 1) } else { self.if_expr(d - 1) },
+                _ => if self.in_fn { self.int_expr(d - 1) } else { E::BitNot(Box::new(self.int_expr(0))) },
             }
+        }
+        /// `if c { e } else { e }` used as a value (value blocks hold a tail value only: the parser drops
+        /// leading statements of a value block, which is not a layout matter)
+        fn if_expr(&mut self, d: usize) -> E {
+            let c = self.cond();
+            // a tail value that starts with `~` is the open finding KF-C15-3: kept rare
+            let a = if self.r.chance(1, 80) { E::BitNot(Box::new(self.int_expr(0))) } else { self.tail_value(d) };
+            let b = self.tail_value(d);
+            E::IfExpr(Box::new(c), Box::new(a), Box::new(b), self.r.chance(1, 4))
+        }
+        fn tail_value(&mut self, d: usize) -> E {
+            loop { let v = self.int_expr(d); if !matches!(v, E::BitNot(_)) { return v; } }
         }
         fn lambda(&mut self, in_parens: bool) -> E {
             let p = self.name("p");
@@ -325,7 +346,15 @@ mod imp {
                 body.push(S::Let(false, t.clone(), self.int_expr(1)));
                 self.ints.push(t);
             }
-            body.push(S::Return(Some(self.int_expr(1))));
+            let form = self.r.below(4);
+            if form == 0 && body.is_empty() {
+                // expression body without braces
+                let e = self.int_expr(1);
+                self.ints = saved.0; self.muts = saved.1; self.in_loop = saved.2; self.in_fn = saved.3; self.in_lambda = false;
+                return E::LambdaExpr(vec![p], Box::new(e));
+            }
+            if form == 1 { body.push(S::Expr(self.int_expr(1))); }      // tail value, no `return`
+            else { body.push(S::Return(Some(self.int_expr(1)))); }
             self.ints = saved.0; self.muts = saved.1; self.in_loop = saved.2; self.in_fn = saved.3; self.in_lambda = false;
             E::Lambda(vec![p], body)
         }
@@ -353,8 +382,9 @@ mod imp {
         fn stmt(&mut self) -> S {
             let top = self.depth == 0;
             loop {
-                match self.r.below(16) {
-                    0 | 1 => { let m = self.r.chance(1, 2); let x = self.name("v"); let e = self.int_expr(2);
+                match self.r.below(17) {
+                    0 | 1 => { let m = self.r.chance(1, 2); let x = self.name("v");
+                               let e = if self.r.chance(1, 4) && !self.in_fn { self.if_expr(1) } else { self.int_expr(2) };
                                self.ints.push(x.clone()); if m { self.muts.push(x.clone()); } return S::Let(m, x, e); }
                     2 => if !self.muts.is_empty() { let x = self.r.pick(&self.muts).clone();
                                return S::Assign(x, *self.r.pick(&["=", "+=", "-=", "*="]), self.int_expr(2)); },
@@ -393,18 +423,22 @@ mod imp {
                                self.fns.push((f.clone(), np));
                                return S::Fn(f, ps, body); },
                     12 => { let v = self.name("c"); let n = self.r.range_i64(3, 5) as usize;
-                               let e = E::VecLit(*self.r.pick(&["Vec", "Array"]), (0..n).map(|_| self.int_expr(1)).collect());
-                               self.vecs.push(v.clone()); return S::Let(false, v, e); }
+                               let kind = *self.r.pick(&["Vec", "Array"]);
+                               let e = E::VecLit(kind, (0..n).map(|_| self.int_expr(1)).collect());
+                               self.vecs.push(v.clone()); if kind == "Vec" { self.pushable.push(v.clone()); } return S::Let(false, v, e); }
                     13 => { let l = self.name("g"); let e = self.lambda(false); self.lams.push(l.clone()); return S::Let(false, l, e); }
                     14 => if self.in_loop && self.r.chance(1, 2) { return S::If(self.cond(), vec![if self.in_while || self.r.chance(1, 2) { S::Break } else { S::Continue }], None, false); }
                           else if self.in_fn && !top { return S::If(self.cond(), vec![S::Return(Some(self.int_expr(1)))], None, false); },
+                    15 => { let cands: Vec<String> = self.pushable.iter().filter(|v| self.vecs.contains(v)).cloned().collect();
+                            if !cands.is_empty() { let v = self.r.pick(&cands).clone();
+                               return S::Expr(E::Method(Box::new(E::Var(v)), "push", vec![self.int_expr(1)])); } },
                     _ => if !self.fns.is_empty() { let (f, n) = self.r.pick(&self.fns).clone();
                                return S::Expr(E::Call(f, (0..n).map(|_| self.int_expr(1)).collect())); },
                 }
             }
         }
         pub fn program(r: &'a mut Rng) -> Vec<S> {
-            let mut g = Gen { r, fresh: 0, ints: vec![], muts: vec![], vecs: vec![], fns: vec![], lams: vec![], depth: 0, in_loop: false, in_fn: false, in_lambda: false, in_while: false };
+            let mut g = Gen { r, fresh: 0, ints: vec![], muts: vec![], vecs: vec![], fns: vec![], lams: vec![], depth: 0, in_loop: false, in_fn: false, in_lambda: false, in_while: false, pushable: vec![] };
             let mut v = vec![S::Fn("apply1".into(), vec!["fz".into(), "az".into()], vec![S::Return(Some(E::Call("fz".into(), vec![E::Var("az".into())])))])];
             let n = g.r.range_i64(4, 10);
             for _ in 0..n { v.push(g.stmt()); }
@@ -418,32 +452,58 @@ mod imp {
     pub enum Fam { Base, Semi, Blank, Indent, Comment, Parens, Literal, Breaks }
     pub const FAMS: [Fam; 7] = [Fam::Semi, Fam::Blank, Fam::Indent, Fam::Comment, Fam::Parens, Fam::Literal, Fam::Breaks];
 
+    /// Every syntactic position in which a family can apply its transformation (the generator must
+    /// reach each of them; the counts go into the evidence).
+    pub const POSITIONS: [&str; 52] = [
+        "Parens:let-init", "Parens:assign-rhs", "Parens:print-arg", "Parens:call-arg", "Parens:method-arg", "Parens:vec-elem",
+        "Parens:operand", "Parens:if-cond", "Parens:while-cond", "Parens:return-value", "Parens:index-expr", "Parens:ifexpr-cond",
+        "Parens:ifexpr-tail", "Parens:lambda-expr-body", "Parens:lambda-tail", "Parens:range-bound", "Parens:stmt-expr",
+        "Parens:receiver", "Parens:index-base",
+        "Semi:top-level", "Semi:fn-body", "Semi:if-block", "Semi:else-block", "Semi:while-body", "Semi:for-body", "Semi:lambda-body",
+        "Breaks:after-call-lparen", "Breaks:after-call-comma", "Breaks:after-print-lparen", "Breaks:after-method-lparen",
+        "Breaks:after-veclit-lbracket", "Breaks:after-veclit-comma",
+        "Comment:trailing:between-stmts", "Comment:trailing:after-open-brace", "Comment:trailing:before-close-brace",
+        "Comment:trailing:before-own-line-else", "Comment:trailing:end-of-program",
+        "Comment:own-line:between-stmts", "Comment:own-line:after-open-brace", "Comment:own-line:before-close-brace",
+        "Comment:own-line:before-own-line-else", "Comment:own-line:end-of-program",
+        "Blank:between-stmts", "Blank:after-open-brace", "Blank:before-close-brace", "Blank:before-own-line-else", "Blank:end-of-program",
+        "Indent:line-start", "Indent:between-tokens",
+        "Literal:statement-level", "Literal:inside-parens-or-brackets", "Literal:range-bound",
+    ];
+
     pub struct Pr<'a> {
         pub o: String, fam: Fam, r: &'a mut Rng, ind: usize, paren: usize,
-        /// flags: comment line placed directly before an `else` line; statement separator inside ( or [
-        pub comment_before_else: bool, pub sep_inside_parens: usize, pub applied: usize,
+        /// flags: comment line placed directly before an `else` line; statement separators written inside ( or [;
+        /// value-block tails whose text starts with `~` (open finding KF-C15-3)
+        pub comment_before_else: bool, pub sep_inside_parens: usize, pub applied: usize, pub tilde_tail: usize,
+        pub pos: std::collections::BTreeMap<String, usize>, kinds: Vec<&'static str>, in_range: bool,
     }
     impl<'a> Pr<'a> {
-        pub fn new(fam: Fam, r: &'a mut Rng) -> Self { Pr { o: String::new(), fam, r, ind: 0, paren: 0, comment_before_else: false, sep_inside_parens: 0, applied: 0 } }
+        pub fn new(fam: Fam, r: &'a mut Rng) -> Self {
+            Pr { o: String::new(), fam, r, ind: 0, paren: 0, comment_before_else: false, sep_inside_parens: 0, applied: 0, tilde_tail: 0,
+                 pos: Default::default(), kinds: vec!["top-level"], in_range: false }
+        }
+        fn note(&mut self, p: String) { self.applied += 1; *self.pos.entry(p).or_insert(0) += 1; }
         fn indent(&mut self) {
-            if self.fam == Fam::Indent { self.applied += 1; for _ in 0..self.r.below(9) { self.o.push(*self.r.pick(&[' ', ' ', '\t'])); } }
+            if self.fam == Fam::Indent { self.note("Indent:line-start".into()); for _ in 0..self.r.below(9) { self.o.push(*self.r.pick(&[' ', ' ', '\t'])); } }
             else { for _ in 0..self.ind { self.o.push_str("    "); } }
         }
         fn sp(&mut self) {
-            if self.fam == Fam::Indent { self.applied += 1; for _ in 0..self.r.range_i64(1, 4) { self.o.push(*self.r.pick(&[' ', ' ', '\t'])); } }
+            if self.fam == Fam::Indent { self.note("Indent:between-tokens".into()); for _ in 0..self.r.range_i64(1, 4) { self.o.push(*self.r.pick(&[' ', ' ', '\t'])); } }
             else { self.o.push(' '); }
         }
         fn comment_text(&mut self) -> String { format!("//{}", *self.r.pick(&COMMENT_WORDS[..])) }
-        /// a line end; `before_else` = the next line starts with `else`
-        fn nl(&mut self, before_else: bool) {
+        /// a line end at `site` (between-stmts, after-open-brace, before-close-brace, before-own-line-else, end-of-program)
+        fn nl(&mut self, site: &'static str) {
             match self.fam {
-                Fam::Blank => { let n = self.r.below(3); self.applied += n as usize;
-                    if self.r.chance(1, 3) { self.o.push_str("  \t"); self.applied += 1; }
-                    self.o.push('\n'); for _ in 0..n { if self.r.chance(1, 2) { self.o.push_str("   "); } self.o.push('\n'); } }
-                Fam::Comment => {
-                    if self.r.chance(1, 3) { self.applied += 1; self.o.push(' '); let c = self.comment_text(); self.o.push_str(&c); }
+                Fam::Blank => { let n = self.r.below(3);
+                    if self.r.chance(1, 3) { self.o.push_str("  \t"); self.note(format!("Blank:{site}")); }
                     self.o.push('\n');
-                    if self.r.chance(1, 4) { self.applied += 1; if before_else { self.comment_before_else = true; }
+                    for _ in 0..n { self.note(format!("Blank:{site}")); if self.r.chance(1, 2) { self.o.push_str("   "); } self.o.push('\n'); } }
+                Fam::Comment => {
+                    if self.r.chance(1, 3) { self.note(format!("Comment:trailing:{site}")); self.o.push(' '); let c = self.comment_text(); self.o.push_str(&c); }
+                    self.o.push('\n');
+                    if self.r.chance(1, 4) { self.note(format!("Comment:own-line:{site}")); if site == "before-own-line-else" { self.comment_before_else = true; }
                         self.indent(); let c = self.comment_text(); self.o.push_str(&c); self.o.push('\n'); }
                 }
                 _ => self.o.push('\n'),
@@ -453,36 +513,51 @@ mod imp {
         fn stmt_sep(&mut self) {
             if self.paren > 0 { self.sep_inside_parens += 1; }
             if self.fam == Fam::Semi {
-                self.applied += 1;
-                match self.r.below(3) { 0 => { self.o.push_str("; "); return; } 1 => { self.o.push(';'); self.nl(false); } _ => { self.o.push_str(" ;"); self.nl(false); } }
-            } else { self.nl(false); }
+                let k = *self.kinds.last().unwrap();
+                self.note(format!("Semi:{k}"));
+                match self.r.below(3) { 0 => { self.o.push_str("; "); return; } 1 => { self.o.push(';'); self.nl("between-stmts"); } _ => { self.o.push_str(" ;"); self.nl("between-stmts"); } }
+            } else { self.nl("between-stmts"); }
             self.indent();
         }
-        fn open(&mut self, t: &str, breakable: bool) {
+        fn open(&mut self, t: &str, site: Option<&'static str>) {
             self.o.push_str(t); self.paren += 1;
-            if breakable && self.fam == Fam::Breaks && self.r.chance(1, 2) { self.applied += 1; self.o.push('\n'); self.ind += 2; self.indent(); self.ind -= 2; }
+            if let Some(site) = site { if self.fam == Fam::Breaks && self.r.chance(1, 2) {
+                self.note(format!("Breaks:{site}")); self.o.push('\n'); self.ind += 2; self.indent(); self.ind -= 2; } }
         }
         fn close(&mut self, t: &str) { self.paren -= 1; self.o.push_str(t); }
-        fn comma(&mut self, breakable: bool) {
+        fn comma(&mut self, site: &'static str) {
             self.o.push(',');
-            if breakable && self.fam == Fam::Breaks && self.r.chance(1, 2) { self.applied += 1; self.o.push('\n'); self.ind += 2; self.indent(); self.ind -= 2; }
+            if self.fam == Fam::Breaks && self.r.chance(1, 2) { self.note(format!("Breaks:{site}")); self.o.push('\n'); self.ind += 2; self.indent(); self.ind -= 2; }
             else { self.sp(); }
         }
         fn int(&mut self, n: u64) {
-            if self.fam == Fam::Literal { self.applied += 1; let radix = self.r.below(4); let us = self.r.chance(1, 2);
+            if self.fam == Fam::Literal {
+                let w = if self.in_range { "range-bound" } else if self.paren > 0 { "inside-parens-or-brackets" } else { "statement-level" };
+                self.note(format!("Literal:{w}"));
+                let radix = self.r.below(4); let us = self.r.chance(1, 2);
                 let s = spell_int(n, self.r, radix, us); self.o.push_str(&s); }
             else { self.o.push_str(&n.to_string()); }
         }
-        /// r-value position: may be wrapped in redundant parentheses
-        fn rv(&mut self, e: &E) {
+        /// r-value position `pos`: may be wrapped in redundant parentheses
+        fn rv(&mut self, e: &E, pos: &'static str) {
             let wrap = self.fam == Fam::Parens && self.r.chance(1, 3);
-            if wrap { self.applied += 1; let n = 1 + self.r.below(2) as usize; for _ in 0..n { self.o.push('('); } self.paren += n;
+            if wrap { self.note(format!("Parens:{pos}")); let n = 1 + self.r.below(2) as usize; for _ in 0..n { self.o.push('('); } self.paren += n;
                       self.expr(e); self.paren -= n; for _ in 0..n { self.o.push(')'); } }
             else { self.expr(e); }
         }
         fn operand(&mut self, e: &E) {
-            // canonical text parenthesises nested binary/unary operands so that precedence never depends on layout
-            match e { E::Bin(..) | E::Neg(..) | E::Not(..) | E::Lambda(..) => { self.o.push('('); self.paren += 1; self.rv(e); self.paren -= 1; self.o.push(')'); } _ => self.rv(e) }
+            // canonical text parenthesises nested binary/unary/if/lambda operands so that precedence never depends on layout
+            match e { E::Bin(..) | E::Neg(..) | E::Not(..) | E::BitNot(..) | E::Lambda(..) | E::LambdaExpr(..) | E::IfExpr(..) => {
+                          self.o.push('('); self.paren += 1; self.rv(e, "operand"); self.paren -= 1; self.o.push(')'); }
+                      _ => self.rv(e, "operand") }
+        }
+        /// `{ e }` value block of an if-expression: one line, the value directly before `}`
+        fn value_block(&mut self, e: &E) {
+            self.o.push('{'); self.sp();
+            let before = self.o.len();
+            self.rv(e, "ifexpr-tail");
+            if self.o[before..].starts_with('~') { self.tilde_tail += 1; }
+            self.sp(); self.o.push('}');
         }
         fn expr(&mut self, e: &E) {
             match e {
@@ -492,50 +567,65 @@ mod imp {
                 E::Var(x) => self.o.push_str(x),
                 E::Bin(a, op, b) => { self.operand(a); self.sp(); self.o.push_str(op); self.sp(); self.operand(b); }
                 E::Neg(a) => { self.o.push('-'); self.operand(a); }
+                E::BitNot(a) => { self.o.push('~'); self.operand(a); }
                 E::Not(a) => { self.o.push_str("not "); self.operand(a); }
-                E::Call(f, args) => { self.o.push_str(f); self.open("(", true);
-                    for (i, a) in args.iter().enumerate() { if i > 0 { self.comma(true); } self.rv(a); } self.close(")"); }
-                E::Index(a, i) => { self.expr(a); self.open("[", false); self.rv(i); self.close("]"); }
-                E::VecLit(k, es) => { self.o.push_str(k); self.open("[", true);
-                    for (i, a) in es.iter().enumerate() { if i > 0 { self.comma(true); } self.rv(a); } self.close("]"); }
-                E::Method(a, m, args) => { self.expr(a); self.o.push('.'); self.o.push_str(m); self.open("(", true);
-                    for (i, x) in args.iter().enumerate() { if i > 0 { self.comma(true); } self.rv(x); } self.close(")"); }
-                E::Lambda(ps, body) => { self.o.push_str("fn("); self.o.push_str(&ps.join(", ")); self.o.push_str(") "); self.block(body); }
+                E::Call(f, args) => { self.o.push_str(f); self.open("(", Some("after-call-lparen"));
+                    for (i, a) in args.iter().enumerate() { if i > 0 { self.comma("after-call-comma"); } self.rv(a, "call-arg"); } self.close(")"); }
+                E::Index(a, i) => { self.rv(a, "index-base"); self.open("[", None); self.rv(i, "index-expr"); self.close("]"); }
+                E::VecLit(k, es) => { self.o.push_str(k); self.open("[", Some("after-veclit-lbracket"));
+                    for (i, a) in es.iter().enumerate() { if i > 0 { self.comma("after-veclit-comma"); } self.rv(a, "vec-elem"); } self.close("]"); }
+                E::Method(a, m, args) => { self.rv(a, "receiver"); self.o.push('.'); self.o.push_str(m); self.open("(", Some("after-method-lparen"));
+                    for (i, x) in args.iter().enumerate() { if i > 0 { self.comma("after-call-comma"); } self.rv(x, "method-arg"); } self.close(")"); }
+                E::Lambda(ps, body) => { self.o.push_str("fn("); self.o.push_str(&ps.join(", ")); self.o.push_str(") "); self.block(body, "lambda-body"); }
+                E::LambdaExpr(ps, body) => { self.o.push_str("fn("); self.o.push_str(&ps.join(", ")); self.o.push_str(") "); self.rv(body, "lambda-expr-body"); }
+                E::IfExpr(c, a, b, own_line) => {
+                    self.o.push_str("if"); self.sp(); self.rv(c, "ifexpr-cond"); self.sp(); self.value_block(a);
+                    // an `else` on its own line is only written where a newline is not swallowed by ( or [
+                    if *own_line && self.paren == 0 { self.nl("before-own-line-else"); self.indent(); } else { self.sp(); }
+                    self.o.push_str("else"); self.sp(); self.value_block(b);
+                }
             }
         }
-        fn block(&mut self, b: &[S]) {
+        fn block(&mut self, b: &[S], kind: &'static str) {
             self.o.push('{');
             if b.is_empty() { self.o.push('}'); return; }
-            self.ind += 1; self.nl(false); self.indent();
-            for (i, s) in b.iter().enumerate() { if i > 0 { self.stmt_sep(); } self.stmt(s); }
-            self.ind -= 1; self.nl(false); self.indent(); self.o.push('}');
+            self.kinds.push(kind);
+            self.ind += 1; self.nl("after-open-brace"); self.indent();
+            for (i, s) in b.iter().enumerate() {
+                if i > 0 { self.stmt_sep(); }
+                if kind == "lambda-body" && i + 1 == b.len() { if let S::Expr(e) = s { self.rv(e, "lambda-tail"); continue; } }
+                self.stmt(s);
+            }
+            self.ind -= 1; self.nl("before-close-brace"); self.indent(); self.o.push('}');
+            self.kinds.pop();
         }
         fn stmt(&mut self, s: &S) {
             match s {
-                S::Let(m, x, e) => { self.o.push_str("let"); self.sp(); if *m { self.o.push_str("mut"); self.sp(); } self.o.push_str(x); self.sp(); self.o.push('='); self.sp(); self.rv(e); }
-                S::Assign(x, op, e) => { self.o.push_str(x); self.sp(); self.o.push_str(op); self.sp(); self.rv(e); }
+                S::Let(m, x, e) => { self.o.push_str("let"); self.sp(); if *m { self.o.push_str("mut"); self.sp(); } self.o.push_str(x); self.sp(); self.o.push('='); self.sp(); self.rv(e, "let-init"); }
+                S::Assign(x, op, e) => { self.o.push_str(x); self.sp(); self.o.push_str(op); self.sp(); self.rv(e, "assign-rhs"); }
                 S::Inc(x, up) => { self.o.push_str(x); self.o.push_str(if *up { "++" } else { "--" }); }
-                S::Print(ln, e) => { self.o.push_str(if *ln { "println" } else { "print" }); self.open("(", true); self.rv(e); self.close(")"); }
+                S::Print(ln, e) => { self.o.push_str(if *ln { "println" } else { "print" }); self.open("(", Some("after-print-lparen")); self.rv(e, "print-arg"); self.close(")"); }
                 S::If(c, a, b, own_line) => {
-                    self.o.push_str("if"); self.sp(); self.rv(c); self.sp(); self.block(a);
+                    self.o.push_str("if"); self.sp(); self.rv(c, "if-cond"); self.sp(); self.block(a, "if-block");
                     if let Some(b) = b {
-                        if *own_line { self.nl(true); self.indent(); } else { self.sp(); }
-                        self.o.push_str("else"); self.sp(); self.block(b);
+                        if *own_line { self.nl("before-own-line-else"); self.indent(); } else { self.sp(); }
+                        self.o.push_str("else"); self.sp(); self.block(b, "else-block");
                     }
                 }
-                S::While(c, b) => { self.o.push_str("while"); self.sp(); self.rv(c); self.sp(); self.block(b); }
+                S::While(c, b) => { self.o.push_str("while"); self.sp(); self.rv(c, "while-cond"); self.sp(); self.block(b, "while-body"); }
                 S::For(i, a, b, body) => { self.o.push_str("for"); self.sp(); self.o.push_str(i); self.sp(); self.o.push_str("in"); self.sp();
-                    self.expr(a); self.o.push_str(".."); self.expr(b); self.sp(); self.block(body); }
-                S::Fn(f, ps, body) => { self.o.push_str("fn"); self.sp(); self.o.push_str(f); self.o.push('('); self.o.push_str(&ps.join(", ")); self.o.push(')'); self.sp(); self.block(body); }
-                S::Return(e) => { self.o.push_str("return"); if let Some(e) = e { self.sp(); self.rv(e); } }
+                    self.in_range = true; self.rv(a, "range-bound"); self.o.push_str(".."); self.rv(b, "range-bound"); self.in_range = false;
+                    self.sp(); self.block(body, "for-body"); }
+                S::Fn(f, ps, body) => { self.o.push_str("fn"); self.sp(); self.o.push_str(f); self.o.push('('); self.o.push_str(&ps.join(", ")); self.o.push(')'); self.sp(); self.block(body, "fn-body"); }
+                S::Return(e) => { self.o.push_str("return"); if let Some(e) = e { self.sp(); self.rv(e, "return-value"); } }
                 S::Break => self.o.push_str("break"),
                 S::Continue => self.o.push_str("continue"),
-                S::Expr(e) => self.expr(e),
+                S::Expr(e) => self.rv(e, "stmt-expr"),
             }
         }
         pub fn program(&mut self, p: &[S]) {
             for (i, s) in p.iter().enumerate() { if i > 0 { self.stmt_sep(); } self.stmt(s); }
-            self.nl(false);
+            self.nl("end-of-program");
         }
     }
 
@@ -549,6 +639,7 @@ mod imp {
     }
 
     pub fn mode_var(r: &mut Rng, n: usize, opts: &[u32], budget: u64, dump: bool) {
+        let mut dist: std::collections::BTreeMap<String, usize> = POSITIONS.iter().map(|p| (p.to_string(), 0)).collect();
         for id in 0..n {
             let mut gr = Rng::new(r.next_u64());
             let prog = Gen::program(&mut gr);
@@ -556,6 +647,7 @@ mod imp {
             let mut bp = Pr::new(Fam::Base, &mut br);
             bp.program(&prog);
             let base_sep_in_parens = bp.sep_inside_parens;
+            let base_tilde = bp.tilde_tail;
             let base = bp.o;
             let base_out: Vec<Outcome> = opts.iter().map(|&o| run_program(&base, o, (0, 0), budget, None)).collect();
             for fam in FAMS {
@@ -564,7 +656,8 @@ mod imp {
                     let mut vp = Pr::new(fam, &mut vr);
                     vp.program(&prog);
                     if vp.applied == 0 || vp.o == base { continue; }
-                    let flags = format!("applied={},comment_before_else={},sep_inside_parens={}/{}", vp.applied, vp.comment_before_else as u8, base_sep_in_parens, vp.sep_inside_parens);
+                    let flags = format!("applied={},comment_before_else={},sep_inside_parens={}/{},tilde_tail={}", vp.applied, vp.comment_before_else as u8, base_sep_in_parens, vp.sep_inside_parens, base_tilde);
+                    for (k, v) in &vp.pos { *dist.entry(k.clone()).or_insert(0) += v; }
                     let var = vp.o;
                     for (k, &o) in opts.iter().enumerate() {
                         let vo = run_program(&var, o, (0, 0), budget, None);
@@ -577,6 +670,8 @@ mod imp {
                 }
             }
         }
+        // how often each family was applied in each syntactic position (all variants of this run)
+        for (k, v) in &dist { println!("D\t{}\t{}", k, v); }
     }
 
     pub fn mode_pairs(file: &str, opts: &[u32], budget: u64) {
